@@ -41,6 +41,10 @@ TtlEdge == {Dg(a) \o <<119>> \o Dg(<<b>>) \o <<100>> \o c \o <<115>> :
                      Dg(<<8, 8, 7, 2, 9, 5>>), Dg(<<8, 8, 7, 2, 9, 6>>)}}
 TtlTexts == Ttl1 \cup Ttl2 \cup Ttl3 \cup TtlEdge
 
+(* texts that are one master-file token, for the entry points that tokenize *)
+ViaTtl3 == {p \o q \o r : p \in Pairs(QN3, QC3), q \in Pairs(QN3, QC3), r \in Pairs(QN3, QC3)}
+TtlViaTexts == {t \in Ttl1 \cup Ttl2 \cup ViaTtl3 \cup TtlEdge : t # <<>> /\ \A k \in 1..Len(t) : t[k] # 32}
+
 RECURSIVE Cat(_, _)
 Cat(S, k) == IF k = 0 THEN {<<>>} ELSE LET P == Cat(S, k - 1) IN P \cup {p \o s : p \in P, s \in S}
 (* long texts over few tokens: several dashes / slashes ("1-2/1/2") need seven tokens *)
@@ -72,8 +76,12 @@ QRTok == {Dg(<<0>>), Dg(<<1>>), Dg(<<2>>), Dg(<<1, 0>>), Dg(<<2, 1, 4, 7, 4, 8, 
 TN2 == AllNums
 TC2 == AllChars
 TN3 == SmallNums \cup {Dg(<<0, 0, 7>>), Dg(<<7, 1, 0, 1>>)}
-TC3 == LowerUnits \cup {87, 121, 45, 1633}
-TRTok == RNumsAll \cup RSeps \cup ROthers
+TC3 == LowerUnits \cup {87, 121, 1633}
+TRTok == (RNumsAll \ {Dg(<<5>>)}) \cup RSeps \cup {<<120>>, <<1633>>}
+(* the model-checking run of the thorough tier steps through a smaller universe than the one replayed on the code *)
+MN2 == QN2 \cup EdgeNums
+MC2 == LowerUnits \cup UpperUnits \cup {121, 45, 178, 1633}
+MRTok == QRTok \cup {Dg(<<0, 0, 7>>), Dg(<<2, 1, 4, 7, 4, 8, 3, 6, 4, 7>>), <<1633>>}
 QRLong == {<<49>>, <<50>>} \cup RSeps
 TRLong == {<<48>>, <<49>>, <<50>>} \cup RSeps
 AllBits == 2..8
